@@ -33,6 +33,14 @@ let strip_line l = show hex (show_line_strip !fixed (bytes_of_hex l))
 let command_line_ l =
   show (function None -> "none" | Some (c, p) -> Printf.sprintf "cmd=%s params=%s" (hex c) (hex p)) (command_line (bytes_of_hex l))
 
+(* the whole #define: constructor, then the replacement list cut into nodes *)
+let rec dump nodes =
+  String.concat "" (List.map (fun (Node (parm, ex, st, pa, op, text, nested)) ->
+    Printf.sprintf "(%s %d%d%d%d %s [%s])" (match parm with Some n -> string_of_int (int_of_nat n) | None -> "-")
+      (if ex then 1 else 0) (if st then 1 else 0) (if pa then 1 else 0) (if op then 1 else 0) (hex text) (dump nested)) nodes)
+let define_line l =
+  show (fun m -> show dump (save_expansion (nat_of_int (List.length m.m_rest + 1)) m.m_params m.m_variadic m.m_rest)) (manifest_ctor !fixed (bytes_of_hex l))
+
 let each (f : string -> string) =
   try
     while true do
@@ -50,4 +58,5 @@ let () =
   | "raw" -> each raw_line
   | "strip" -> each strip_line
   | "command" -> each command_line_
+  | "define" -> each define_line
   | m -> failwith ("mode " ^ m)
